@@ -18,6 +18,7 @@ def run(prog, rep, tier):
     apply(rep, "R5", "T1: closure seen-set/work-list start clean for each input", t1, 2)
     import r_order
     apply(rep, "O5", "the seen-set's order on stacks is a strict weak order consistent with ==", r_order.o5(prog, tier), 1)
+    apply(rep, "T4", "`E*` / `E+` yield, for every input in turn, each reachable stack exactly once and then stay exhausted (op_tr_closure interpreted on finite relations)", r_stream.t4(prog, tier), 1)
     import r_lex
     apply(rep, "N3", "`E?` is (E,) and closures are only merged with a closure directly beneath them (grammar actions interpreted from source)", r_lex.n3(prog), 4)
     apply(rep, "T2", "work-list push only after successful seen-set insertion", r_stream.t2(prog), 1)
